@@ -209,11 +209,19 @@ impl CellOccupancyMatrix {
 
     /// Determines whether the specified row contains any items
     pub fn row_is_occupied(&self, row_index: usize) -> bool {
+        // A row outside of the matrix (e.g. a grid without any in-flow items has an empty matrix) contains no items
+        if row_index >= self.inner.rows() {
+            return false;
+        }
         self.inner.iter_row(row_index).any(|cell| !matches!(cell, CellOccupancyState::Unoccupied))
     }
 
     /// Determines whether the specified column contains any items
     pub fn column_is_occupied(&self, column_index: usize) -> bool {
+        // A column outside of the matrix (e.g. a grid without any in-flow items has an empty matrix) contains no items
+        if column_index >= self.inner.cols() {
+            return false;
+        }
         self.inner.iter_col(column_index).any(|cell| !matches!(cell, CellOccupancyState::Unoccupied))
     }
 
